@@ -251,6 +251,18 @@ def evaluate(cases, rep, tag="cases"):
         for what, detail, ctx in compare(case, io, toks):
             rep.violation("impl-vs-model" if "impl-vs-model" in what else "impl-vs-property",
                           cc.replayable(case), dict(detail, what=what), dict(ctx, types="x".join(io["types"])))
+        # READ-ORDER LEG (after seeded change C11-6: the population MoE wrote NaN into the cached strand
+        # standard errors, visible only when population_counts_moe is read before table_proportion_stderrs):
+        # the variances / standard deviations / standard errors / margins of error read after every other
+        # public read must be the ones of the fresh partition the model was compared with.
+        population, late = cc.late_reads(case, N1 if io["ndim"] == 1 else N2, io["v"])
+        rep.dist("late-reads:" + ("strand" if io["ndim"] == 1 else "slice"))
+        rep.dist("late-reads:population=%s" % ("yes" if population is not None else "none"))
+        for n, a, b, culprits in late[:1]:
+            rep.violation("impl-vs-property", cc.replayable(case),
+                          {"what": "%s depends on what was read before" % n, "fresh": a, "after_other_reads": b,
+                           "population": population, "single_earlier_reads_that_change_it": culprits},
+                          {"measure": n, "oracle": "order_independent", "types": "x".join(io["types"])})
     return coq_s, len(terms)
 
 
